@@ -1,5 +1,5 @@
 (* Property C16 - print-then-parse round trip: precedence, grouping, layout and literal fidelity. RF (AtomsSel.v) is the rendering relation: every text a printer may emit for a tree; c16_final_parse says the parser (declarative semantics of the table regenerated from grammar.go, through engine completeness) reads every such text back as the tree. Statements only. *)
-From Coq Require Import List String ZArith NArith Bool. From Bexpr Require Import Base Strconv Ast Unicode Peg Typing Actions GoGrammar Sem Calc Calc2 Lex Lex2 Lex3 Skel Top C10 C16 Glue Spell Ptr StrLit Values Num NumLit Sels KwMiss Coll Bind2 C16Full AtomsIn AtomsOp AtomsNotIn AtomsSel AtomsLeft AtomsBare Fidelity Fid4 Univ Eval EndToEnd. Import ListNotations.
+From Coq Require Import List String ZArith NArith Bool. From Bexpr Require Import Base Strconv Ast Unicode Peg Typing Actions GoGrammar Sem Calc Calc2 Lex Lex2 Lex3 Skel Top C10 C16 Glue Spell Ptr StrLit Values Num NumLit Sels KwMiss Coll Bind2 C16Full AtomsIn AtomsOp AtomsNotIn AtomsSel AtomsLeft AtomsBare Fidelity Fid4 Univ Eval EndToEnd ActionsPinned ActionsPin. Import ListNotations.
 
 Theorem c16_quoted_literal :
   forall s : string, unquote (quote_double s) = Some s.
@@ -235,3 +235,7 @@ Theorem mixed_vs_kw :
 Proof. exact Sels.mixed_vs_kw. Qed.
 Print Assumptions mixed_vs_kw.
 
+(* every code block in grammar.go is the one the action semantics above was written against *)
+Theorem c16_actions_as_modelled : GoGrammar.go_actions = ActionsPinned.pinned_actions.
+Proof. exact ActionsPin.actions_pinned. Qed.
+Print Assumptions c16_actions_as_modelled.
